@@ -5,6 +5,7 @@ use crate::prng::Rng;
 
 pub mod net;
 pub mod pipe;
+pub mod sched;
 pub mod tour;
 pub mod trans;
 
@@ -28,6 +29,21 @@ pub fn generate(scope: &str, name: &str, seed: u64, k: u64, rng: &mut Rng, tier:
             };
             let inst = gen_instance(rng, &p);
             head + &pipe::run(&inst, &workdir(), name, tier)
+        }
+        "sched" => {
+            let p = match rng.below(3) {
+                0 => Profile::maint_heavy(),
+                1 => Profile::medium(),
+                _ => Profile::small(),
+            };
+            let inst = gen_instance(rng, &p);
+            match load_or_report(inst) {
+                Err(s) => head + &s,
+                Ok(ctx) => {
+                    let n = if tier == "thorough" { rng.range(20, 150) } else { rng.range(10, 40) };
+                    head + &ctx.inst.to_text() + &sched::generate(&ctx, rng, n)
+                }
+            }
         }
         "trans" => {
             let p = if rng.chance(50) { Profile::maint_heavy() } else { Profile::small() };
@@ -66,6 +82,10 @@ pub fn rerun(text: &str) -> String {
     match scope {
         "net" => head + &net::run(inst),
         "pipe" => head + &pipe::run(&inst, &workdir(), t[1], t.get(5).copied().unwrap_or("quick")),
+        "sched" => match load_or_report(inst) {
+            Err(s) => head + &s,
+            Ok(ctx) => head + &ctx.inst.to_text() + &sched::rerun(&ctx, text),
+        },
         "trans" => match load_or_report(inst) {
             Err(s) => head + &s,
             Ok(ctx) => head + &ctx.inst.to_text() + &trans::rerun(&ctx, text),
